@@ -38,6 +38,7 @@ PROFILES = [
     {"post": (1, True), "h1a": (1, False), "h2a": (2, False)},  # trailing sniffer raises after suspending
     {"h0a": (1, False), "h0b": (2, False), "h1a": (1, True), "hd": (0, True)},
     {"h0a": (3, False), "h1a": (4, True), "pre": (3, False)},   # long handlers (3-4 suspension points)
+    {"h0a": (4, False), "h0b": (0, True)},                      # a handler raises while its sibling is suspended
 ]
 
 
@@ -186,6 +187,14 @@ def scenario(ctx, props=("C12",), nsrc=2, nev=2, njobs=0, max_mc=3, derived=True
             mon.rec("job", j, name, "end")
             if raises:
                 raise Boom(name)
+
+        def job_raising_when_called():
+            # a job that is not a coroutine function and fails before it returns anything awaitable
+            mon.rec("job", j, name, "start")
+            mon.rec("job", j, name, "end")
+            raise Boom(name)
+        if raises == "call":
+            job = job_raising_when_called          # noqa: F811
         if job_zones:
             # the same instant named in another time zone (UTC, UTC+2, UTC-3), one choice per job
             h = [0, 2, -3][ctx.choice("zone_of_" + name, 3)]
@@ -247,9 +256,15 @@ def scenario(ctx, props=("C12",), nsrc=2, nev=2, njobs=0, max_mc=3, derived=True
                     if "j" not in late_job:
                         tj = ctx.dt("t_job_from_job", T0, T_HI + datetime.timedelta(days=8))
                         late_job["j"] = schedule_job("job_from_job", tj)
-            schedule_job("job%d" % i, tjs[i], raises=(raising_job and i == 1), then=then)
+            schedule_job("job%d" % i, tjs[i], raises=(raising_job if i == 1 else False), then=then)
 
-    run_dispatcher(d)
+    run_error = None
+    try:
+        run_dispatcher(d)
+    except Boom as ex:
+        run_error = ex
+    ctx.prove(run_error is None, "%s an exception in a handler or job never makes the run fail" % sorted(P)[0],
+              info=repr(run_error))
 
     # =============================================================== oracle over the observed trace
     tr = mon.trace
